@@ -43,6 +43,9 @@ type Run struct {
 func (r Run) OK() bool { return r.Exit == 0 && r.Panic == "" }
 
 // Tool executes the real build command in-process. version/buildInfo are what main.go would pass.
+// ConstructAlso: build versions of command objects that Tool constructs after the one it runs.
+var ConstructAlso []string
+
 func Tool(version, buildInfo string, args ...string) (r Run) {
 	var buf bytes.Buffer
 	defer func() {
@@ -53,6 +56,10 @@ func Tool(version, buildInfo string, args ...string) (r Run) {
 		}
 	}()
 	c := cmd.NewBuildCmd(version, buildInfo)
+	for _, v := range ConstructAlso {
+		// further command objects constructed (never run) after this one: what they are given is theirs alone
+		_ = cmd.NewBuildCmd(v, v+" decoy")
+	}
 	c.SetArgs(args)
 	c.SetOut(&buf)
 	c.SetErr(&buf)
